@@ -293,6 +293,15 @@ impl MT104 {
         let field_71g = parser.parse_optional_field::<Field71G>("71G")?;
         let field_53 = parser.parse_optional_variant_field::<Field53SenderCorrespondent>("53")?;
 
+        // Sequence C, when present, starts with its mandatory settlement amount (32B)
+        if field_32b.is_none()
+            && (field_19.is_some() || field_71f.is_some() || field_71g.is_some() || field_53.is_some())
+        {
+            return Err(crate::errors::ParseError::InvalidFormat {
+                message: "MT104: Sequence C requires field 32B (settlement amount)".to_string(),
+            });
+        }
+
         // The repetitive sequence is mandatory: at least one occurrence
         // (left-over content is reported by the completeness check that follows)
         if transactions.is_empty() && parser.is_complete() {
